@@ -67,6 +67,10 @@ pub struct WPlan {
     pub split: Vec<u8>,
     /// weights at the very bottom of the f64 range (known finding K1)
     pub tiny: bool,
+    /// ProbMinHash3a / 3aSha accept entries of weight 0 (they are no members of the weighted set): ids of such
+    /// ghost entries interleaved into every map delivery
+    #[serde(default)]
+    pub ghosts: Vec<u64>,
 }
 
 // ------------------------------------------------------------------------------------------
@@ -515,10 +519,14 @@ fn compare_sigs(
         return ctx.check_key("C02", oracle, key, true, String::new);
     }
     let (rg, rw) = (got.regs().0, want.regs().0);
+    let mut ties = 0;
     for pos in 0..sg.len() {
         if sg[pos] != sw[pos] {
-            let tie = rg[pos].to_bits() == rw[pos].to_bits() && tie_ok(p, v, pairs, pos, sg[pos], sw[pos], rg[pos]);
+            // one exact f64 tie in a run has probability ~2^-52 per pair and position; a second one in the same
+            // comparison means two items share their race values systematically, which is not a legitimate tie
+            let tie = ties == 0 && rg[pos].to_bits() == rw[pos].to_bits() && tie_ok(p, v, pairs, pos, sg[pos], sw[pos], rg[pos]);
             if tie {
+                ties += 1;
                 ctx.count("exact-tie-accepted");
                 continue;
             }
@@ -563,7 +571,7 @@ impl Scenario for WStream {
             _ => rng.log_range(1, if big { 10_000 } else { 300 }) as usize,
         };
         let ids = crate::sc_stream::gen_items(rng, n, ElemT::U32);
-        let ids: Vec<u64> = ids.into_iter().filter(|i| *i != PLACEHOLDER && *i < 0xffff_fff0).collect();
+        let ids: Vec<u64> = ids.into_iter().filter(|i| *i != PLACEHOLDER && *i < 0xffff_0000).collect();
         let ids = if ids.is_empty() { vec![1] } else { ids };
         let n = ids.len();
         let ws = gen_weights(rng, n, tiny);
@@ -615,7 +623,12 @@ impl Scenario for WStream {
             0
         };
         let split = if rng.chance(0.4) && n >= 2 { (0..n).map(|_| *rng.pick(&[0u8, 1, 2])).collect() } else { vec![] };
-        WPlan { variant, elem, shakey, hash, m, wset, events, scale_exp, split, tiny }
+        let ghosts = if matches!(variant, Variant::Pmh3a | Variant::Sha) && rng.chance(0.25) {
+            (0..rng.urange(1, 4)).map(|k| 0xffff_0000 + k as u64 * 7 + rng.below(5)).collect()
+        } else {
+            vec![]
+        };
+        WPlan { variant, elem, shakey, hash, m, wset, events, scale_exp, split, tiny, ghosts }
     }
 
     fn execute(&self, plan: &WPlan, ctx: &mut Ctx) -> Result<(), Violation> {
@@ -624,7 +637,35 @@ impl Scenario for WStream {
         let pairs = pairs_of(plan);
         let pmap: BTreeMap<u64, f64> = pairs.iter().copied().collect();
         let ids: BTreeSet<u64> = pairs.iter().map(|x| x.0).collect();
-        let get = |v: &Vec<usize>| -> Vec<(u64, f64)> { v.iter().map(|i| pairs[*i]).collect() };
+        // ghost entries (weight 0) are used only if this variant accepts a weight of zero at all
+        let ghosts_ok = !plan.ghosts.is_empty()
+            && matches!(v, Variant::Pmh3a | Variant::Sha)
+            && caught(|| {
+                let mut probe = make_wnode(plan);
+                probe.idxmap(&[(plan.ghosts[0], 0.0)]);
+            })
+            .is_ok();
+        if !plan.ghosts.is_empty() && !ghosts_ok {
+            ctx.count("skipped:zero-weight-entries-rejected-by-the-variant");
+        }
+        let get = |v: &Vec<usize>| -> Vec<(u64, f64)> {
+            let mut out: Vec<(u64, f64)> = v.iter().map(|i| pairs[*i]).collect();
+            if ghosts_ok {
+                // interleave: one ghost first, one in the middle, the rest at the end
+                for (k, g) in plan.ghosts.iter().enumerate() {
+                    let pos = match k {
+                        0 => 0,
+                        1 => out.len() / 2,
+                        _ => out.len(),
+                    };
+                    out.insert(pos, (*g, 0.0));
+                }
+            }
+            out
+        };
+        if ghosts_ok {
+            ctx.count("fault:zero-weight-ghost-entries");
+        }
         let mut node = make_wnode(plan);
         let mut delivered: BTreeSet<usize> = BTreeSet::new();
         let mut tracker_check = |ctx: &mut Ctx, node: &dyn WNode, what: &str| -> Result<(), Violation> {
@@ -831,6 +872,16 @@ impl Scenario for WStream {
             let mut q = plan.clone();
             q.split = vec![];
             out.push(q);
+        }
+        if !plan.ghosts.is_empty() {
+            let mut q = plan.clone();
+            q.ghosts = vec![];
+            out.push(q);
+            if plan.ghosts.len() > 1 {
+                let mut q = plan.clone();
+                q.ghosts.truncate(1);
+                out.push(q);
+            }
         }
         // simpler weights
         if !plan.tiny && plan.wset.iter().any(|x| f64::from_bits(x.1) != 1.0) {
